@@ -1,4 +1,5 @@
 import QcelVerif.Model.Protocols
+import QcelVerif.Model.ProtocolsElems
 import QcelVerif.Lib.Proto
 /-!
 Line-protocol driver for the C20 model.
@@ -13,6 +14,12 @@ Line-protocol driver for the C20 model.
   wfn    = N | R~basis~name:shape,…~ptr>target,…      R = 1 | 0 | -      basis = - | nbf^a.a.a^id=shell+shell&id=…
   shell  = s|c / L.L / nexp / r.r       shape = d x d x d  (0d = scalar array)
   rr     = f | d | shape     stdout = 0|1 (supplied?)     files = N | id.id.id   (0 is "input")
+
+Element-carrying ops (model `Model/ProtocolsElems.lean`, payload π = the digest token of the row-major elements):
+  AE|wp|so|nf|driver|propsE|wfnE|rrE|stdout|files    and    PE|propsE
+  where every array item is  name:shape:tok:lay   (tok = hex digest of the row-major element list; lay = memory layout
+  the harness builds the implementation's input with — c f s l — irrelevant to the model, but checked to be one of them)
+  and rrE = f:tok | d:tok | shape:tok:lay.  Output items are name:shape:tok.
 -/
 open QcelVerif QcelVerif.Protocols QcelVerif.Proto
 
@@ -215,4 +222,95 @@ def stepC20 (line : String) : String :=
     | _, _ => "bad-op"
   | _ => "bad-op"
 
-def main : IO Unit := mainLoop stepC20
+/-! ### element-carrying ops -/
+
+def isTok (s : String) : Bool := !s.isEmpty && s.toList.all (fun c => c.isDigit || ('a' ≤ c && c ≤ 'f'))
+def isLay (s : String) : Bool := s == "c" || s == "f" || s == "s" || s == "l"
+
+def parseFieldArrs? {α : Type} (all : List α) (name : α → String) (s : String) : Option (List (α × Arr String)) :=
+  let items := splitNonEmpty s ','
+  let names := items.map (fun it => (splitOnChar it ':').headD "")
+  if names.eraseDups.length != names.length then none else
+  items.mapM (fun it =>
+    match splitOnChar it ':' with
+    | [n, sh, tok, lay] => do
+        let k ← lookupName? all name (trimStr n)
+        let v ← parseShape? sh
+        if isTok tok && isLay lay then pure (k, { shape := v, data := tok }) else none
+    | _ => none)
+
+def showArr (n : String) (a : Arr String) : String := s!"{n}:{showShape a.shape}:{a.data}"
+
+def parsePropsE? (s : String) : Option (PropsInE String) :=
+  match splitOnChar s '~' with
+  | [n, fs] => do
+      let natom ← parseOptNat? n
+      let l ← parseFieldArrs? PropArr.all PropArr.name fs
+      pure { natom := natom, arr := assocFn l }
+  | _ => none
+
+def showPropsE (p : PropsInE String) : String :=
+  let n := match p.natom with | none => "N" | some v => toString v
+  let fs := PropArr.all.filterMap (fun k => (p.arr k).map (showArr k.name))
+  n ++ "~" ++ ",".intercalate fs
+
+def parseWfnE? (s : String) : Option (Option (WfnE String BasisIn)) :=
+  if trimStr s == "N" then some none else
+  match splitOnChar s '~' with
+  | [r, b, arrs, ptrs] => do
+      let r ← (match trimStr r with | "1" => some (some true) | "0" => some (some false) | "-" => some none | _ => none)
+      let b ← (if trimStr b == "-" then some none else (parseBasis? b).map some)
+      let al ← parseFieldArrs? ArrKey.all ArrKey.name arrs
+      let pl ← parsePtrs? ptrs
+      pure (some { restricted := r, basis := b, arr := assocFn al, ptr := assocFn pl })
+  | _ => none
+
+def showWfnE (w : WfnE String BasisIn) : String :=
+  let r := match w.restricted with | some true => "1" | some false => "0" | none => "-"
+  let b := match w.basis with
+    | none => "-"
+    | some b => match b.nbf with | some n => toString n | none => "?"
+  let arrs := ArrKey.all.filterMap (fun k => (w.arr k).map (showArr k.name))
+  let ptrs := PtrKey.all.filterMap (fun k => (w.ptr k).map (fun t => s!"{k.name}>{t.name}"))
+  r ++ "~" ++ b ++ "~" ++ ",".intercalate arrs ++ "~" ++ ",".intercalate ptrs
+
+def parseRRE? (s : String) : Option (RRE String) :=
+  match splitOnChar (trimStr s) ':' with
+  | ["f", tok] => if isTok tok then some (.scalar tok) else none
+  | ["d", tok] => if isTok tok then some (.dict tok) else none
+  | [sh, tok, lay] => do
+      let v ← parseShape? sh
+      if isTok tok && isLay lay then pure (.arr { shape := v, data := tok }) else none
+  | _ => none
+
+def showRRE : RRE String → String
+  | .scalar d => "f:" ++ d
+  | .dict d => "d:" ++ d
+  | .arr a => s!"{showShape a.shape}:{a.data}"
+
+def stepAE (wp so nf drv props wfn rr sout files : String) : String :=
+  match parseWP? wp, parseBool01? so, parseNP? nf, parseDriver? drv, parsePropsE? props, parseWfnE? wfn,
+        parseRRE? rr, parseBool01? sout, parseFiles? files with
+  | some wp, some so, some nf, some drv, some props, some wfn, some rr, some sout, some files =>
+    let i : ARInE String Unit Unit := { wp := wp, so := so, nf := nf, driver := drv, props := props, wfn := wfn, rr := rr,
+                                        stdout := if sout then some () else none, native := files }
+    match atomicResultE i with
+    | .ok o =>
+      let w := match o.wfn with | none => "N" | some w => showWfnE w
+      s!"ok props={showPropsE o.props} wfn={w} rr={showRRE o.rr} stdout={if o.stdout.isSome then 1 else 0} files={showFiles o.native}"
+    | .error e => showErr e
+  | _, _, _, _, _, _, _, _, _ => "bad-op"
+
+def stepC20E (line : String) : String :=
+  match splitOnChar line '|' with
+  | ["AE", wp, so, nf, drv, props, wfn, rr, sout, files] => stepAE wp so nf drv props wfn rr sout files
+  | ["PE", props] =>
+    match parsePropsE? props with
+    | some p =>
+      match validatePropsE p with
+      | .ok o => "ok " ++ showPropsE o
+      | .error l => showErr (.validation (l.map PropArr.name))
+    | none => "bad-op"
+  | _ => stepC20 line
+
+def main : IO Unit := mainLoop stepC20E
